@@ -16,10 +16,10 @@ from vlib.core import Collector, Failure, hyp_campaign
 
 ID = "C12"
 LEVEL = "exploration"
-RULE = ("Hypothesis draws a source set - an XML Schema from the SchemaSpec generator, 1-3 XML sample documents, or one of the "
+RULE = ("Hypothesis draws a source set - an XML Schema from the SchemaSpec generator, a schema whose 3-6 complex types refer to each other in cycles (ring + extra edges, mostly generated with the cluster styles and 5 hash seeds), 2-5 schemas importing each other, 1-3 XML sample documents, or one of the "
         "repository's fixture source sets (XSD, multi-file XSD, WSDL+XSD, DTD, JSON/XML samples) - and a generator configuration. The "
         "set is generated in fresh interpreters through: the API with PYTHONHASHSEED=0 (reference), the API under two other hash "
-        "seeds, the API twice in one interpreter, the command line with flags, and the command line with the same configuration "
+        "seeds, the API twice in one interpreter, the API after an earlier run in the same interpreter with OTHER settings (every switch flipped, package/module/class/field renaming rules, a namespace-wide package alias), the command line with flags, and the command line with the same configuration "
         "written to a project file, and the command line with --cache twice (cold then warm sources cache). Oracle: every route yields the same outcome and byte-identical files (path by path). "
         "Non-trivial = the reference run wrote at least 2 modules / 1 KB and at least 4 further routes completed; distinct by "
         "fingerprint of (sources, options).")
@@ -118,6 +118,27 @@ def multi_xsd(draw):
 
 
 @st.composite
+def cyclic_xsd(draw):
+    """3-6 complex types whose references form one or more cycles (a ring plus extra edges), a root element using some of
+    them: what ends up in one module / cluster, and under which name, must not depend on set iteration order."""
+    n = draw(st.integers(3, 6))
+    names = draw(st.lists(st.sampled_from(["Company", "Department", "Team", "Person", "Item", "Address", "Code", "Party", "Order", "Unit"]),
+                          min_size=n, max_size=n, unique=True))
+    ring = draw(st.integers(2, n))
+    edges = {(i, (i + 1) % ring) for i in range(ring)} | {(i, draw(st.integers(0, n - 1))) for i in range(ring, n)}
+    edges |= set(draw(st.lists(st.tuples(st.integers(0, n - 1), st.integers(0, n - 1)), max_size=4)))
+    ns = draw(st.sampled_from(NS_POOL))
+    body = []
+    for i, tn in enumerate(names):
+        els = "".join(f'<xs:element name="{names[j].lower()}" type="t:{names[j]}" minOccurs="0"{" maxOccurs=\"unbounded\"" if (i + j) % 2 else ""}/>'
+                      for (a, j) in sorted(edges) if a == i)
+        body.append(f'<xs:complexType name="{tn}"><xs:sequence><xs:element name="id" type="xs:{draw(st.sampled_from(LEAF_TYPES))}"/>{els}</xs:sequence></xs:complexType>')
+    roots = "".join(f'<xs:element name="{names[i].lower()}Root" type="t:{names[i]}"/>' for i in sorted(draw(st.sets(st.integers(0, n - 1), min_size=1, max_size=2))))
+    return {"schema.xsd": (f'<?xml version="1.0" encoding="UTF-8"?>\n<xs:schema xmlns:xs="http://www.w3.org/2001/XMLSchema" xmlns:t="{ns}" targetNamespace="{ns}" '
+                           f'elementFormDefault="qualified">{"".join(body)}{roots}</xs:schema>\n')}
+
+
+@st.composite
 def cases(draw, family):
     opts = draw(options())
     hseeds = draw(st.lists(st.sampled_from([1, 2, 3, 7, 42, 1234, 99999, 4294967295]), min_size=2, max_size=2, unique=True))
@@ -128,6 +149,9 @@ def cases(draw, family):
         if draw(st.booleans()):
             opts["structure_style"] = "namespaces"
         return {"family": "multi-xsd", "files": draw(multi_xsd()), "options": opts, "hash_seeds": hseeds}
+    if family == "cyclic-xsd":
+        opts["structure_style"] = draw(st.sampled_from(["clusters", "namespace-clusters", "clusters", opts["structure_style"]]))
+        return {"family": "cyclic-xsd", "files": draw(cyclic_xsd()), "options": opts, "hash_seeds": hseeds}
     if family == "xml":
         names = draw(st.lists(st.sampled_from(PLAIN), min_size=3, max_size=8, unique=True))
         uris = draw(st.sampled_from(URI_SETS))
@@ -139,15 +163,25 @@ def cases(draw, family):
 def sources_of(case):
     if case["family"] == "xsd":
         return {"schema.xsd": S.render_xsd(case["spec"])}
-    if case["family"] == "multi-xsd":
+    if case["family"] in ("multi-xsd", "cyclic-xsd"):
         return dict(case["files"])
     if case["family"] == "xml":
         return {f"sample{i}.xml": d for i, d in enumerate(case["docs"])}
     return {Path(p).name: (FIX / p).read_text(encoding="utf-8") for p in FIXTURES[case["fixture"]]}
 
 
+def other_options(opts):
+    """The settings of the run that precedes the judged one on the 'api-after-other' route: other renaming rules for
+    packages / modules / classes, the opposite of every boolean switch."""
+    o = {k: (not v if isinstance(v, bool) and k != "include_header" else v) for k, v in opts.items()}
+    o["substitutions"] = [["package", "^.+$", "other.place"], ["package", "a", "aa"], ["package", "e", "o"], ["module", "e", "ee"], ["class", "e", "E"], ["field", "e", "ee"]]
+    return o
+
+
 def run_route(route, hash_seed, sources, opts, workdir):
     job = {"route": route, "dir": workdir, "sources": sources, "options": opts, "package": "gen.pkg"}
+    if route == "api-after-other":
+        job["other_options"] = other_options(opts)
     env = {k: v for k, v in os.environ.items() if k not in ("PYTHONHASHSEED", "VERIF_BOOTSTRAPPED")}
     env["PYTHONHASHSEED"] = str(hash_seed)
     env["TMPDIR"] = os.path.join(workdir, "tmp")          # the sources cache lives in the temp dir: private per run
@@ -175,9 +209,9 @@ def execute(case, col):
     fails = []
     try:
         ref = run_route("api", 0, sources, opts, os.path.join(base, "ref"))
-        routes = [("api", case["hash_seeds"][0]), ("api", case["hash_seeds"][1]), ("api-twice", 0), ("cli", case["hash_seeds"][0]),
+        routes = [("api", case["hash_seeds"][0]), ("api", case["hash_seeds"][1]), ("api-twice", 0), ("api-after-other", 0), ("cli", case["hash_seeds"][0]),
                   ("cli-config", case["hash_seeds"][1]), ("cli-cache-twice", case["hash_seeds"][0])]
-        if case["family"] == "multi-xsd":
+        if case["family"] in ("multi-xsd", "cyclic-xsd"):
             routes += [("api", 5), ("api", 11), ("api", 77)]
         if any(n.endswith(".wsdl") for n in sources):
             routes = [r for r in routes if r[0] != "cli-cache-twice" or case.get("force_cache_route")]     # recorded finding: warm cache + WSDL
@@ -213,7 +247,7 @@ def execute(case, col):
 def plan(tier, seed):
     per = {"quick": 8, "thorough": 80}[tier]
     nsh = {"quick": 4, "thorough": 16}[tier]
-    return [{"family": fam, "n": per, "seed": seed * 1000 + 10 * i + k} for k, fam in enumerate(("xsd", "xml", "fixture", "multi-xsd")) for i in range(nsh)]
+    return [{"family": fam, "n": per, "seed": seed * 1000 + 10 * i + k} for k, fam in enumerate(("xsd", "xml", "fixture", "multi-xsd", "cyclic-xsd")) for i in range(nsh)]
 
 
 def run_shard(shard, col):
